@@ -62,6 +62,11 @@ pub fn epoch_alphabet(thorough: bool) -> Vec<Vec<u8>> {
     v.push(b"tt".to_vec());
     v.push("é".as_bytes().to_vec());
     v.push(prbytes(9, 64));
+    // epochs ending in / containing NUL bytes (little-endian counters, C strings)
+    v.push(vec![0]);
+    v.push(vec![3, 2, 1, 0]);
+    v.push(b"t\0".to_vec());
+    v.push(vec![0, b't']);
   }
   v
 }
